@@ -713,6 +713,8 @@ fn m2_drive(_s: &Seed, data: &[u8], p: &mut Probe) {
     use wow_m2::M2ModelAnimationExt;
     if let Some(fmt) = p.call("parse_m2", || wow_m2::parse_m2(&mut Cursor::new(data))) {
         p.call("M2Model::validate", || fmt.model().validate());
+        // (the entry points below fail by design on some valid files - wrong kind of file, version without the feature)
+        p.seed_valid = Some(p.all_ok);
         // the readers that take the parsed model together with the bytes it came from
         let m = fmt.model();
         p.call("M2Model::parse_all_embedded_skins", || m.parse_all_embedded_skins(data));
@@ -722,6 +724,7 @@ fn m2_drive(_s: &Seed, data: &[u8], p: &mut Probe) {
         p.call("M2Model::resolve_bone_animations", || m.resolve_bone_animations(data));
         p.call("M2Model::get_bind_pose", || m.get_bind_pose(data));
     }
+    p.seed_valid = Some(p.seed_valid.unwrap_or(p.all_ok));
     // ... and the ones that take the raw bytes only
     p.call("extract_embedded_skin_bytes", || wow_m2::embedded_skin::extract_embedded_skin_bytes(data, 0));
     p.call("extract_embedded_skin_bytes", || wow_m2::embedded_skin::extract_embedded_skin_bytes(data, 1));
@@ -824,6 +827,7 @@ fn skin_drive(_s: &Seed, data: &[u8], p: &mut Probe) {
             std::hint::black_box(n)
         });
     }
+    p.seed_valid = Some(p.seed_valid.unwrap_or(p.all_ok));
     // the header-less pre-WotLK layout (as embedded in a model), both submesh record sizes
     p.call("skin::parse_embedded_skin", || wow_m2::skin::parse_embedded_skin(&mut Cursor::new(data), 256));
     p.call("skin::parse_embedded_skin", || wow_m2::skin::parse_embedded_skin(&mut Cursor::new(data), 260));
@@ -916,6 +920,7 @@ fn anim_drive(_s: &Seed, data: &[u8], p: &mut Probe) {
         p.call("AnimFile::validate", || f.validate());
         p.call_plain("AnimFile::memory_usage", || std::hint::black_box(f.memory_usage().approximate_bytes));
     }
+    p.seed_valid = Some(p.seed_valid.unwrap_or(p.all_ok));
     // a caller-chosen format (no detection), and the validating entry point
     p.call("AnimFile::parse_with_format", || wow_m2::AnimFile::parse_with_format(&mut Cursor::new(data), wow_m2::AnimFormat::Legacy));
     p.call("AnimFile::parse_with_format", || wow_m2::AnimFile::parse_with_format(&mut Cursor::new(data), wow_m2::AnimFormat::Modern));
